@@ -37,9 +37,59 @@ type ptrScalarLast struct {
 	C *uint32
 }
 
+// Go kinds beyond the sized integers of the signature universe: the platform-sized int
+// and uint (64 bits on the wire), alone, behind other members and inside containers
+// (seed C08-17 dropped them from the decoder's kind switch: nothing was read, success).
+type kindRec struct {
+	A int32
+	B int
+	C uint
+	T uint8
+}
+
+type kindAll struct {
+	I8  int8
+	U8  uint8
+	I16 int16
+	U16 uint16
+	I32 int32
+	U32 uint32
+	I64 int64
+	U64 uint64
+	I   int
+	U   uint
+	F32 float32
+	F64 float64
+	B   bool
+	S   string
+	T   uint8
+}
+
+type kindContainers struct {
+	L []int
+	M map[uint]int
+	P *int
+	T uint8
+}
+
 func familyPointers() {
 	fam := run.Family("pointer-members")
 	nine, five, six := uint16(9), uint32(5), uint32(6)
+	minus := -4
+	le := func(n int, v uint64) []byte {
+		b := make([]byte, n)
+		for i := range b {
+			b[i] = byte(v >> (8 * uint(i)))
+		}
+		return b
+	}
+	cat := func(parts ...[]byte) []byte {
+		var out []byte
+		for _, p := range parts {
+			out = append(out, p...)
+		}
+		return out
+	}
 	cases := []struct {
 		name string
 		mk   func() interface{}
@@ -52,6 +102,15 @@ func familyPointers() {
 			[]byte{2, 0, 0, 0, 1, 0, 0, 0, 1, 0, 0, 0, 'x', 2, 0, 0, 0, 2, 0, 0, 0, 'y', 'z', 3, 0, 0, 0, 0, 0, 0, 0}},
 		{"scalar-pointers-last", func() interface{} { return new(ptrScalarLast) }, &ptrScalarLast{"abc", &five, &six},
 			[]byte{3, 0, 0, 0, 'a', 'b', 'c', 5, 0, 0, 0, 6, 0, 0, 0}},
+		{"platform-sized-integers", func() interface{} { return new(kindRec) }, &kindRec{1, -2, 3, 9},
+			cat(le(4, 1), le(8, ^uint64(1)), le(8, 3), le(1, 9))},
+		{"every-scalar-kind", func() interface{} { return new(kindAll) },
+			&kindAll{-1, 2, -3, 4, -5, 6, -7, 8, -9, 10, 1.5, -2.25, true, "ab", 9},
+			cat(le(1, 0xff), le(1, 2), le(2, 0xfffd), le(2, 4), le(4, 0xfffffffb), le(4, 6), le(8, ^uint64(6)), le(8, 8), le(8, ^uint64(8)), le(8, 10),
+				le(4, 0x3fc00000), le(8, 0xc002000000000000), le(1, 1), le(4, 2), []byte("ab"), le(1, 9))},
+		{"platform-sized-integers-in-containers", func() interface{} { return new(kindContainers) },
+			&kindContainers{[]int{1, -2}, map[uint]int{7: -8}, &minus, 9},
+			cat(le(4, 2), le(8, 1), le(8, ^uint64(1)), le(4, 1), le(8, 7), le(8, ^uint64(7)), le(8, ^uint64(3)), le(1, 9))},
 	}
 	decode := func(dst interface{}, r *enum.FragReader) (err error) {
 		defer func() {
@@ -94,6 +153,102 @@ func familyPointers() {
 			run.Violation("cut/reflect-decode/pointer-members/wrong-on-full/"+c.name, "0", fmt.Sprintf("the complete encoding % x decodes to %s, expected %s", c.enc, dumpPtr(dst), dumpPtr(c.want)), map[string]interface{}{"type": c.name, "hex": hexs(c.enc)}, func() bool { return true })
 		}
 		run.Distinct("pointer-members|" + c.name + "|" + out)
+	}
+}
+
+// familyOverCap: maps and lists whose announced size lies around the documented cap of
+// 4096 entries, decoded into a nil destination. A decoder may refuse a size above the cap;
+// it may not read part of the entries and report success (seed C08-18 clamped the size: a
+// stream cut after the 4096th entry was accepted).
+func familyOverCap() {
+	fam := run.Family("over-cap-containers")
+	le := func(n int, v uint64) []byte {
+		b := make([]byte, n)
+		for i := range b {
+			b[i] = byte(v >> (8 * uint(i)))
+		}
+		return b
+	}
+	decode := func(dst interface{}, r *enum.FragReader) (err error) {
+		defer func() {
+			if p := recover(); p != nil {
+				err = fmt.Errorf("panic: %v", p)
+			}
+		}()
+		return encoding.NewDecoder(encoding.DefaultCap(), r).Decode(dst)
+	}
+	type rec struct {
+		M map[uint16]uint8
+		T uint8
+	}
+	type recL struct {
+		L []uint16
+		T uint8
+	}
+	kinds := []struct {
+		name  string
+		mk    func() interface{}
+		entry func(i int) []byte
+		count func(dst interface{}) int
+	}{
+		{"map", func() interface{} { return new(map[uint16]uint8) }, func(i int) []byte { return append(le(2, uint64(i)), byte(i%251)) },
+			func(d interface{}) int { return len(*d.(*map[uint16]uint8)) }},
+		{"map-member", func() interface{} { return new(rec) }, func(i int) []byte { return append(le(2, uint64(i)), byte(i%251)) },
+			func(d interface{}) int { return len(d.(*rec).M) }},
+		{"list-member", func() interface{} { return new(recL) }, func(i int) []byte { return le(2, uint64(i)) },
+			func(d interface{}) int { return len(d.(*recL).L) }},
+	}
+	for _, kd := range kinds {
+		for _, n := range []int{4095, 4096, 4097, 5000} {
+			enc := le(4, uint64(n))
+			for i := 0; i < n; i++ {
+				enc = append(enc, kd.entry(i)...)
+			}
+			if kd.name != "map" {
+				enc = append(enc, 9)
+			}
+			esz := len(kd.entry(0))
+			cuts := map[int]bool{}
+			for k := 0; k < len(enc); k += 97 {
+				cuts[k] = true
+			}
+			for k := len(enc) - 12; k < len(enc); k++ {
+				cuts[k] = true
+			}
+			for d := -2 * esz; d <= 2*esz; d++ {
+				if k := 4 + 4096*esz + d; k >= 0 && k < len(enc) {
+					cuts[k] = true
+				}
+			}
+			name := fmt.Sprintf("%s/n=%d", kd.name, n)
+			out := "ok"
+			for k := range cuts {
+				for _, mode := range []enum.EOFMode{enum.EOFWithData, enum.EOFSeparate} {
+					run.Eval(fam, 1)
+					dst := kd.mk()
+					if err := decode(dst, enum.NewFragReader(enc[:k], nil, mode, 0)); err == nil {
+						out = "accepted"
+						kk, mm := k, mode
+						run.Violation("cut/reflect-decode/over-cap/accepted/"+name, fmt.Sprintf("%06d", k),
+							fmt.Sprintf("Decode(*%v) accepts the first %d of the %d bytes of a container announcing %d entries (decoded %d entries)", reflect.TypeOf(dst).Elem(), k, len(enc), n, kd.count(dst)),
+							map[string]interface{}{"type": kd.name, "entries": n, "cut": k},
+							func() bool { return decode(kd.mk(), enum.NewFragReader(enc[:kk], nil, mm, 0)) == nil })
+					}
+				}
+			}
+			dst := kd.mk()
+			rd := enum.NewFragReader(append(append([]byte{}, enc...), 0xEE, 0xEE, 0xEE, 0xEE), nil, enum.NoEOF, 0)
+			err := decode(dst, rd)
+			switch {
+			case err != nil && n <= 4096:
+				out = "full-refused"
+				run.Violation("cut/reflect-decode/over-cap/full-refused/"+name, "0", fmt.Sprintf("the complete encoding of a container of %d entries (within the cap) is refused: %v", n, err), map[string]interface{}{"type": kd.name, "entries": n}, func() bool { return true })
+			case err == nil && (rd.Pos() != len(enc) || kd.count(dst) != n):
+				out = "consumed"
+				run.Violation("cut/reflect-decode/over-cap/partly-read/"+name, "0", fmt.Sprintf("decoding a container announcing %d entries reports success after %d of %d bytes with %d entries", n, rd.Pos(), len(enc), kd.count(dst)), map[string]interface{}{"type": kd.name, "entries": n}, func() bool { return true })
+			}
+			run.Distinct("over-cap|" + name + "|" + out)
+		}
 	}
 }
 
